@@ -56,10 +56,10 @@ class Harmonic:
     def __init__(self, module, index):
         self.module = module
         self.index = index
-        self._freq_hz = 0
-        self._volume = 0
-        self._width = 0
-        self._type = SpectraVoice.HarmonicType.hsin
+        self._freq_hz = module.harmonic_freqs.values[index]
+        self._volume = module.harmonic_volumes.values[index]
+        self._width = module.harmonic_widths.values[index]
+        self._type = module.harmonic_types.values[index]
 
     @property
     def freq_hz(self):
